@@ -299,9 +299,23 @@ def run(ctx):
 
     # ---- 3. real code on the grid ---------------------------------------------------
     grid = []
+    replay_point = None
+    if ctx.replay:
+        with open(ctx.replay) as f:
+            inp = json.load(f).get("input") or {}
+        if "family" in inp and "params" in inp:
+            fam = inp["family"]
+            var = [v for v, f2 in VARIANTS if f2 == fam and (fam != "Beta" or v == f"beta{len(inp['params'])}")]
+            if var:
+                replay_point = (var[0], fam, [F(x) for x in inp["params"]])
+                npts = 0
+        cov["replay"] = f"{ctx.replay}: " + ("re-running its input through every comparison" if replay_point else
+                                             "no (family, params) input in the file: full run")
     for variant, fam in VARIANTS:
         for i in range(npts):
             grid.append((variant, fam, gen_params(ctx.rng, variant)))
+    if replay_point:
+        grid.append(replay_point)
     # a few hand-picked corners
     grid += [("bernoulli", "Bernoulli", [F(0)]), ("bernoulli", "Bernoulli", [F(1)]), ("bernoulli", "Bernoulli", [F(1, 3)]),
              ("categorical", "Categorical", [F(1)]), ("discreteuniform", "DiscreteUniform", [F(0), F(0)]),
@@ -322,7 +336,63 @@ def run(ctx):
         tasks.append({"kind": "dist_eval", "family": fam, "params": [fstr(p) for p in ps],
                       "ks": [] if variant == "truncnormal" else list(range(kmax + 1)),
                       "ts": [fstr(t) for t in ts], "timeout": 120})
-    results = lib.run_tasks(tasks, timeout=120)
+    ls_tasks = []
+    ls_meta = []
+    for i in range(ctx.pick(4, 20)):
+        mu, s2, a, w, b, num, den = rq(ctx.rng, -3, 3), rpos(ctx.rng), rq(ctx.rng, -3, 3), rpos(ctx.rng), rpos(ctx.rng, 3), rpos(ctx.rng), rpos(ctx.rng)
+        for fam, sym, subs, coqname, cargs in [
+            ("Normal", ["p0", "p1"], {"p0": mu, "p1": s2}, "normal", [mu, s2]),
+            ("Normal", ["p0", fstr(s2)], {"p0": mu}, "normal", [mu, s2]),
+            ("Uniform", ["p0", "p1"], {"p0": a, "p1": a + w}, "uniform", [a, a + w]),
+            ("Laplace", ["p0", fstr(b)], {"p0": mu}, "laplace", [mu, b]),
+            ("DistExp", [f"({fstr(num)})/p0"], {"p0": den}, "exponential", [num, den]),
+        ]:
+            ls_tasks.append({"kind": "dist_locscale", "family": fam, "sym_params": sym,
+                             "subs": {k: fstr(v) for k, v in subs.items()}, "timeout": 60})
+            ls_meta.append((fam, coqname, cargs, sym, subs))
+    val_tasks = []
+    val_meta = []
+    per_variant = {}
+    for variant, fam, ps in grid:
+        if variant == "categorical" or per_variant.get(variant, 0) >= ctx.pick(1, 4):
+            continue    # Categorical declares no cf/mgf
+        if variant in ("beta2", "beta3") and (ctx.quick or per_variant.get(variant, 0) >= 1):
+            continue    # sympy's E[exp(t X)] does not finish for non-integer Beta parameters: integer points below
+        if variant == "truncnormal" and ctx.quick:
+            ps = [F(0), F(1), F(-1), F(2)]   # erf series at generic points exceed the quick budget
+        per_variant[variant] = per_variant.get(variant, 0) + 1
+        val_tasks.append({"kind": "dist_transform", "family": fam, "params": [fstr(p) for p in ps],
+                          "kmax": ctx.pick(3, 6) if variant == "truncnormal" else 6, "budget": ctx.pick(20, 60),
+                          "tol": 1e-9 if variant == "truncnormal" else None,
+                          "timeout": ctx.pick(70, 150)})
+        val_meta.append((variant, fam, ps))
+    # integer-parameter Beta: sympy finishes there
+    for fam, ps, variant in [("Beta", [F(2), F(3)], "beta2"), ("Beta", [F(2), F(3), F(5, 2)], "beta3"),
+                             ("Beta", [F(ctx.rng.randint(1, 4)), F(ctx.rng.randint(1, 4)), rpos(ctx.rng)], "beta3")]:
+        val_tasks.append({"kind": "dist_transform", "family": fam, "params": [fstr(p) for p in ps], "kmax": 6,
+                          "budget": 40, "tol": None, "timeout": 100})
+        val_meta.append((variant, fam, ps))
+    tn_tasks = [{"kind": "dist_truncnormal", "params": [fstr(p) for p in ps], "ks": list(range(0, 7)), "timeout": 120}
+                for variant, fam, ps in grid if variant == "truncnormal"][:ctx.pick(3, 12)]
+    stale_tasks = []
+    for fam, sym, num, subs in [("Uniform", ["p0", "3"], ["1", "3"], {"p0": "1"}), ("DistExp", ["p0"], ["2"], {"p0": "2"}),
+                                ("Normal", ["p0", "2"], ["1/2", "2"], {"p0": "1/2"}), ("Gamma", ["2", "p0"], ["2", "1/3"], {"p0": "1/3"}),
+                                ("Beta", ["2", "3", "p0"], ["2", "3", "5/2"], {"p0": "5/2"}), ("Laplace", ["p0", "1"], ["2", "1"], {"p0": "2"}),
+                                ("Categorical", ["p0", "1-p0"], ["1/4", "3/4"], {"p0": "1/4"}), ("Bernoulli", ["p0"], ["1/4"], {"p0": "1/4"})]:
+        stale_tasks.append({"kind": "dist_stale", "family": fam, "sym_params": sym, "num_params": num, "subs": subs, "k": 2, "timeout": 60})
+    fl_tasks = []
+    fl_meta = []
+    for lit in ["0.25", "1.1", "2.675", "0.1", "1e-7", "123456.789", "3.0", "0.000123456789012345"] + \
+               [f"{ctx.rng.randint(0, 9)}.{ctx.rng.randint(0, 999999):06d}" for _ in range(ctx.pick(6, 40))]:
+        fl_tasks.append({"kind": "dist_eval", "family": "Normal", "params": ["0", lit], "ks": [2], "ts": [], "timeout": 60})
+        fl_meta.append(lit)
+    # one pool for everything (long sympy tasks first)
+    batches = [val_tasks, tn_tasks, tasks, ls_tasks, stale_tasks, fl_tasks]
+    allres = lib.run_tasks([t for b in batches for t in b], timeout=150)
+    offs = [0]
+    for b in batches:
+        offs.append(offs[-1] + len(b))
+    vres, tn, results, ls_res, sres, fres = [allres[offs[i]:offs[i + 1]] for i in range(len(batches))]
 
     coq_cases = {}      # variant -> list of (term, label)
     n_mismatch_oracle = 0
@@ -401,21 +471,6 @@ def run(ctx):
     cov["grid_histogram"] = hist
 
     # ---- 4. location/scale rewriting: real DistTransformer vs generated transform_* ----
-    ls_tasks = []
-    ls_meta = []
-    for i in range(ctx.pick(4, 20)):
-        mu, s2, a, w, b, num, den = rq(ctx.rng, -3, 3), rpos(ctx.rng), rq(ctx.rng, -3, 3), rpos(ctx.rng), rpos(ctx.rng, 3), rpos(ctx.rng), rpos(ctx.rng)
-        for fam, sym, subs, coqname, cargs in [
-            ("Normal", ["p0", "p1"], {"p0": mu, "p1": s2}, "normal", [mu, s2]),
-            ("Normal", ["p0", fstr(s2)], {"p0": mu}, "normal", [mu, s2]),
-            ("Uniform", ["p0", "p1"], {"p0": a, "p1": a + w}, "uniform", [a, a + w]),
-            ("Laplace", ["p0", fstr(b)], {"p0": mu}, "laplace", [mu, b]),
-            ("DistExp", [f"({fstr(num)})/p0"], {"p0": den}, "exponential", [num, den]),
-        ]:
-            ls_tasks.append({"kind": "dist_locscale", "family": fam, "sym_params": sym,
-                             "subs": {k: fstr(v) for k, v in subs.items()}, "timeout": 60})
-            ls_meta.append((fam, coqname, cargs, sym, subs))
-    ls_res = lib.run_tasks(ls_tasks, timeout=60)
     ls_cases = []
     for (fam, coqname, cargs, sym, subs), r in zip(ls_meta, ls_res):
         label = {"family": fam, "sym_params": sym, "subs": {k: fstr(v) for k, v in subs.items()}}
@@ -532,27 +587,6 @@ def run(ctx):
     cov["correspondence"] = {"instances": k_total, "equal": k_ok, "mismatch": len(k_mismatch)}
 
     # ---- 6. validation: cf/mgf, TruncNormal quadrature, cache staleness, float literals ----
-    val_tasks = []
-    val_meta = []
-    per_variant = {}
-    for variant, fam, ps in grid:
-        if variant == "categorical" or per_variant.get(variant, 0) >= ctx.pick(1, 4):
-            continue    # Categorical declares no cf/mgf
-        if variant in ("beta2", "beta3") and (ctx.quick or per_variant.get(variant, 0) >= 1):
-            continue    # sympy's E[exp(t X)] does not finish for non-integer Beta parameters: integer points below
-        per_variant[variant] = per_variant.get(variant, 0) + 1
-        val_tasks.append({"kind": "dist_transform", "family": fam, "params": [fstr(p) for p in ps],
-                          "kmax": ctx.pick(3, 6) if variant == "truncnormal" else 6, "budget": ctx.pick(20, 60),
-                          "tol": 1e-9 if variant == "truncnormal" else None,
-                          "timeout": ctx.pick(70, 150)})
-        val_meta.append((variant, fam, ps))
-    # integer-parameter Beta: sympy finishes there
-    for fam, ps, variant in [("Beta", [F(2), F(3)], "beta2"), ("Beta", [F(2), F(3), F(5, 2)], "beta3"),
-                             ("Beta", [F(ctx.rng.randint(1, 4)), F(ctx.rng.randint(1, 4)), rpos(ctx.rng)], "beta3")]:
-        val_tasks.append({"kind": "dist_transform", "family": fam, "params": [fstr(p) for p in ps], "kmax": 6,
-                          "budget": 40, "tol": None, "timeout": 100})
-        val_meta.append((variant, fam, ps))
-    vres = lib.run_tasks(val_tasks, timeout=150)
     vstat = {"ok": 0, "ok-numeric": 0, "inconclusive": 0, "mismatch": 0, "not-implemented": 0}
     vdetail = {}
     for (variant, fam, ps), r in zip(val_meta, vres):
@@ -588,9 +622,6 @@ def run(ctx):
     cov["transform_validation"] = vstat
     cov["transform_validation_inconclusive"] = vdetail
 
-    tn_tasks = [{"kind": "dist_truncnormal", "params": [fstr(p) for p in ps], "ks": list(range(0, 7)), "timeout": 120}
-                for variant, fam, ps in grid if variant == "truncnormal"][:ctx.pick(3, 12)]
-    tn = lib.run_tasks(tn_tasks, timeout=120) if tn_tasks else []
     tn_max = 0.0
     for t, r in zip(tn_tasks, tn):
         if "error" in r:
@@ -608,13 +639,6 @@ def run(ctx):
                         f"TruncNormal({', '.join(t['params'])}).get_moment({k}) = {v['got']}, quadrature {v['true']}")
     cov["truncnormal_max_rel_err"] = tn_max
 
-    stale_tasks = []
-    for fam, sym, num, subs in [("Uniform", ["p0", "3"], ["1", "3"], {"p0": "1"}), ("DistExp", ["p0"], ["2"], {"p0": "2"}),
-                                ("Normal", ["p0", "2"], ["1/2", "2"], {"p0": "1/2"}), ("Gamma", ["2", "p0"], ["2", "1/3"], {"p0": "1/3"}),
-                                ("Beta", ["2", "3", "p0"], ["2", "3", "5/2"], {"p0": "5/2"}), ("Laplace", ["p0", "1"], ["2", "1"], {"p0": "2"}),
-                                ("Categorical", ["p0", "1-p0"], ["1/4", "3/4"], {"p0": "1/4"}), ("Bernoulli", ["p0"], ["1/4"], {"p0": "1/4"})]:
-        stale_tasks.append({"kind": "dist_stale", "family": fam, "sym_params": sym, "num_params": num, "subs": subs, "k": 2, "timeout": 60})
-    sres = lib.run_tasks(stale_tasks, timeout=60)
     stale = []
     for t, r in zip(stale_tasks, sres):
         ctx.count({"stale": t["family"]}, nontrivial=True)
@@ -630,13 +654,6 @@ def run(ctx):
                       f"{s0['object']}.get_moment(2) returns the cached pre-substitution value {s0['after']} instead of {s0['fresh']} "
                       f"(families affected: {', '.join(x['family'] for x in stale)})")
 
-    fl_tasks = []
-    fl_meta = []
-    for lit in ["0.25", "1.1", "2.675", "0.1", "1e-7", "123456.789", "3.0", "0.000123456789012345"] + \
-               [f"{ctx.rng.randint(0, 9)}.{ctx.rng.randint(0, 999999):06d}" for _ in range(ctx.pick(6, 40))]:
-        fl_tasks.append({"kind": "dist_eval", "family": "Normal", "params": ["0", lit], "ks": [2], "ts": [], "timeout": 60})
-        fl_meta.append(lit)
-    fres = lib.run_tasks(fl_tasks, timeout=60)
     for lit, r in zip(fl_meta, fres):
         ctx.count({"float": lit}, nontrivial=True)
         if "error" in r:
